@@ -53,7 +53,42 @@ func pointerSources(p *Program, v ssa.Value) (srcs []ssa.Value, unknown []string
 				rec(e, d+1)
 			}
 		case *ssa.Extract:
+			if call, ok := x.Tuple.(*ssa.Call); ok {
+				if callee := call.Call.StaticCallee(); callee != nil && p.isModuleFn(callee) && len(callee.Blocks) > 0 {
+					for _, blk := range callee.Blocks {
+						if ret, ok := blk.Instrs[len(blk.Instrs)-1].(*ssa.Return); ok && x.Index < len(ret.Results) {
+							rec(ret.Results[x.Index], d+1)
+						}
+					}
+					return
+				}
+			}
 			rec(x.Tuple, d+1)
+		case *ssa.Call:
+			// a module helper returning the pointer (e.g. a search helper extracted from the row loop): its returns
+			if callee := x.Call.StaticCallee(); callee != nil && p.isModuleFn(callee) && len(callee.Blocks) > 0 {
+				for _, blk := range callee.Blocks {
+					if ret, ok := blk.Instrs[len(blk.Instrs)-1].(*ssa.Return); ok && len(ret.Results) == 1 {
+						rec(ret.Results[0], d+1)
+					}
+				}
+				return
+			}
+			unknown = append(unknown, fmt.Sprintf("%T %s", v, descr(v)))
+		case *ssa.Parameter:
+			// a pointer parameter of a module helper: what every call site passes
+			callers := p.Callers(x.Parent())
+			idx := paramIndex(x)
+			if len(callers) == 0 || idx < 0 {
+				unknown = append(unknown, "parameter "+x.Name()+" of "+shortName(x.Parent()))
+				return
+			}
+			for _, e := range callers {
+				args := e.Site.Common().Args
+				if idx < len(args) {
+					rec(args[idx], d+1)
+				}
+			}
 		case *ssa.Lookup:
 			org := p.valueOrigins(x.X)
 			n := 0
@@ -110,7 +145,15 @@ func sliceIsResultCollection(c *Ctx, slice ssa.Value, coll string, fn *ssa.Funct
 			return false, "no caller"
 		}
 		for _, e := range callers {
-			expr := b.bind(e.Site.Common().Args[idx])
+			arg := e.Site.Common().Args[idx]
+			if _, isParam := arg.(*ssa.Parameter); isParam {
+				// handed through a helper: decide at the helper's own call sites
+				if ok, why := sliceIsResultCollection(c, arg, coll, e.Caller); !ok {
+					return false, why
+				}
+				continue
+			}
+			expr := b.bind(arg)
 			if !strings.HasSuffix(expr, "."+coll) || !strings.Contains(expr, "gtfs.Static") {
 				return false, "caller " + shortName(e.Caller) + " passes " + clip(expr, 80) + ", not result." + coll
 			}
